@@ -141,28 +141,38 @@ def r10_3(run, model):
 
 
 def r10_4(run, model):
-    run.rule("R10.4", "the printf verb of each numeric *_to_string runtime helper fits the Go type: an integer verb (%d) only for integer types")
-    f = model.fn("to_string_fn", RUNTIME)
-    verbs = [n["value"] for n in S.walk(f.body) if n["k"] == "Lit" and n.get("lit") == "Str" and n["value"].startswith("%")]
-    verb_by_param = None
-    # does the verb depend on the type parameter?
-    depends = any(p["pat"]["name"] in S.idents(x) for x in S.walk(f.body) if x["k"] in ("If", "Match") for p in f.params() if not p["self"]) if False else False
+    run.rule("R10.4", "each numeric *_to_string runtime helper renders its own argument at its own width: the function that builds the helper "
+                      "uses a printf verb that fits the Go type (an integer verb only for integer types) and never converts the argument to "
+                      "a fixed-width Go type on the way (`int64(x)` turns a uint64 above 2^63 into a negative number)")
+    GO_NUM = re.compile(r"^(u?int(8|16|32|64)?|float(32|64)|uintptr)$")
     n = 0
     for fn in model.fns(RUNTIME):
         if fn.body is None:
             continue
-        for c in S.calls(fn.body, "to_string_fn"):
-            if c["k"] != "Call" or len(c["args"]) < 2 or c["args"][0]["k"] != "Lit":
+        for c in S.walk(fn.body):
+            if c["k"] != "Call" or len(c["args"]) < 2 or c["args"][0]["k"] != "Lit" or not str(c["args"][0].get("value", "")).endswith("_to_string"):
                 continue
-            n += 1
             name = c["args"][0]["value"]
+            if not re.match(r"^(u?int\d+|float\d+)_to_string$", name):
+                continue
+            builders = model.find_fns(S.callee_name(c), RUNTIME)
+            if len(builders) != 1 or builders[0].body is None:
+                raise AnalysisIncomplete(f"the function building {name} was not found")
+            b = builders[0]
+            n += 1
             gty = S.norm_ws(run.facts.text(RUNTIME, c["args"][1]["sp"]))
+            lits = [x["value"] for x in S.walk(b.body) if x["k"] == "Lit" and x.get("lit") == "Str"]
+            verbs = [v for v in lits if v.startswith("%")]
             extra = [a["value"] for a in c["args"][2:] if a["k"] == "Lit"]
             verb = extra[0] if extra else (verbs[0] if len(set(verbs)) == 1 else None)
             is_float = "Float" in gty
             ok = verb is not None and ((verb in ("%d",)) != is_float)
             run.ob("R10.4", f"{name}|verb fits {gty.split('::')[-1]}", ok, site(RUNTIME, c["sp"]), f"{name} formats {gty} with {verb!r}",
                    witness="float32_to_string(3.5) prints %!d(float32=3.5)")
+            conv = sorted({v for v in lits if GO_NUM.match(v)})
+            run.ob("R10.4", f"{name}|argument is rendered at its own width", not conv, site(RUNTIME, b.node["sp"]),
+                   f"{b.name} names the Go type(s) {conv} in the helper's body" if conv else f"{b.name} passes the parameter on unconverted",
+                   witness="uint64_to_string(18446744073709551615) prints -1: the helper widens every integer to int64 before formatting")
     run.floor("numeric to_string helpers", n, 10)
 
 
